@@ -53,4 +53,22 @@ def rpeKrad (shifts : List Rat) (centre : Int) (k1 k2 : Nat) : Rat :=
   let r : Int := (k1 : Int) - centre
   if r = 0 then 0 else (r : Rat) + shifts.getD (k2 % shifts.length) 0
 
+/-! ### `KTrajectoryPulseq`: rescaling of the sequence's k-space positions to encoding-matrix units -/
+def absR (x : Rat) : Rat := if x < 0 then -x else x
+def maxR (a b : Rat) : Rat := if a ≤ b then b else a
+/-- `torch.max(torch.abs(k))` -/
+def maxAbs (k : List Rat) : Rat := k.foldl (fun m x => maxR m (absR x)) 0
+/-- `k_traj * (encoding_size / (2 * k_max))` -/
+def pulseqScale (x enc km : Rat) : Rat := x * enc / (2 * km)
+/-- a direction whose extent is below this fraction of the largest extent is "not encoded" -/
+def pulseqThreshold : Rat := 1 / 1000000
+/-- `reshape_pulseq_traj` before the reshape: a direction is rescaled with ITS OWN extent `maxAbs k`; `kmaxAll` (the extent
+over all directions) only decides whether the direction is encoded at all -/
+def pulseqAxis (k : List Rat) (enc : Nat) (kmaxAll : Rat) : List Rat :=
+  if pulseqThreshold * kmaxAll < maxAbs k then k.map (fun x => pulseqScale x (enc : Rat) (maxAbs k)) else k.map (fun _ => 0)
+/-- `(kz, ky, kx)` of `KTrajectoryPulseq.__call__` for the sequence positions `(kx, ky, kz)` and the encoding matrix -/
+def pulseqTraj (kx ky kz : List Rat) (nx ny nz : Nat) : List Rat × List Rat × List Rat :=
+  let all := maxR (maxAbs kx) (maxR (maxAbs ky) (maxAbs kz))
+  (pulseqAxis kz nz all, pulseqAxis ky ny all, pulseqAxis kx nx all)
+
 end M
